@@ -6,6 +6,7 @@ import ast
 from ..chains import chain_arms
 from ..loader import AnalysisError, call_attr, call_name, dotted, unparse
 from ..rulekit import arg_of, const_value, def_value, is_none_test, local_defs
+from . import c02
 
 SENDER = "aiokafka.producer.sender.Sender"
 TXN = "aiokafka.producer.transaction_manager.TransactionManager"
@@ -556,5 +557,6 @@ def run(ctx):
     rule_send_guard(ctx)
     rule_registry_reset(ctx)
     rule_error_tables(ctx)
+    c02.rule_future_ownership(ctx)
     rep.nd("atomicity as seen by a read-committed reader under all fault / crash points (needs histories)")
     rep.nd("liveness: every transaction ends the way requested once faults cease")
